@@ -93,7 +93,9 @@ def token_digest(token: str) -> str:
         Lowercase hex digest.
 
     """
-    return hashlib.sha256(token.encode("utf-8")).hexdigest()
+    # JSON can carry a lone surrogate ("\ud800"), which strict UTF-8 refuses to
+    # encode; a digest for a log line must not turn such a subject into a 500.
+    return hashlib.sha256(token.encode("utf-8", "surrogatepass")).hexdigest()
 
 
 @dataclass(frozen=True)
